@@ -36,7 +36,7 @@ let () =
             (pairs (namespaces_in_scope ep xp nn xn z))
             (String.concat "," (L.map (fun p -> so (namespace_for_prefix xp nn xn z (n_of_int p))) (range np)))
             (String.concat "," (L.map (fun n -> so (prefix_for_namespace ep xp xn z (n_of_int n))) (range nns)))
-            (String.concat "" (L.map (fun p -> if is_prefix_defined xp xn z (n_of_int p) then "1" else "0") (range np)))
+            (String.concat "" (L.map (fun p -> if is_prefix_defined xp nn xn z (n_of_int p) then "1" else "0") (range np)))
             (String.concat "," (L.map (fun (p, n) -> string_of_int p ^ ">" ^ string_of_int n) inh))
             (String.concat "," (L.map nstr (unresolved_namespaces ep nn ns_of_name z)))
             fnm nnr) (Access.store_cursors store) in
